@@ -476,6 +476,26 @@ class Evaluator:
             return f(*args, **kwargs)
         raise Uninterpretable(f"call {ast.unparse(e)}")
 
+    def match_pattern(self, pat, subject, env):
+        if isinstance(pat, ast.MatchValue):
+            return self.truth(self.equal(subject, self.ev(pat.value, env)))
+        if isinstance(pat, ast.MatchSingleton):
+            return subject is pat.value
+        if isinstance(pat, ast.MatchAs):
+            if pat.pattern is not None and not self.match_pattern(pat.pattern, subject, env):
+                return False
+            if pat.name is not None:
+                env[pat.name] = subject
+            return True
+        if isinstance(pat, ast.MatchOr):
+            return any(self.match_pattern(p_, subject, env) for p_ in pat.patterns)
+        if isinstance(pat, ast.MatchClass) and not pat.patterns and not pat.kwd_patterns:
+            cname = ast.unparse(pat.cls).split(".")[-1]
+            if cname in ("int", "float", "str", "bool"):
+                return type(subject).__name__ == cname or (cname == "int" and isinstance(subject, int) and not isinstance(subject, bool))
+            return isinstance(subject, Obj) and (subject.tag == cname or cname in subject.attrs.get("__bases__", ()))
+        raise Uninterpretable(f"match pattern {ast.unparse(pat)}")
+
     def run_function(self, node, args, kwargs, outer):
         env = dict(outer)
         params = [a.arg for a in node.args.args]
@@ -542,6 +562,12 @@ class Evaluator:
                 raise Raised(ast.unparse(exc))
             elif isinstance(s, ast.Pass):
                 continue
+            elif isinstance(s, ast.Match):
+                subject = self.ev(s.subject, env)
+                for case in s.cases:
+                    if self.match_pattern(case.pattern, subject, env) and (case.guard is None or self.truth(self.ev(case.guard, env))):
+                        self.block(case.body, env)
+                        break
             elif isinstance(s, ast.Try) and not s.finalbody:
                 try:
                     self.block(s.body, env)
